@@ -92,8 +92,12 @@ def observe(sess, hist, op, exc, valid, reason, pre, acc):
             return
         _BFS_MEMO.add(k)
     n = p["n"]
-    if len(tdf) != len(model.live):
-        raise core.Violation("len", kcommon.sig(PROP, "len", op, cfg), None, f"{where}: len {len(tdf)} vs {len(model.live)} live")
+    try:
+        got_len = len(tdf)
+    except Exception as x:  # noqa: BLE001
+        raise core.Violation("len", kcommon.sig(PROP, "len", op, cfg, type(x).__name__), None, f"{where}: len(tdf) raised {type(x).__name__}: {x}")
+    if got_len != len(model.live):
+        raise core.Violation("len", kcommon.sig(PROP, "len", op, cfg), None, f"{where}: len {got_len} vs {len(model.live)} live")
     acc.n["accessor_evals"] += 1
     for t, name in kdriver.HAS.items():
         if hasattr(type(tdf), name):
